@@ -1,6 +1,6 @@
 CONSTANTS LimbBits = 16  NLimbs = 4  PB = 12  MaxOps = 2  Bug = ""  Emit = TRUE
   OpKinds = {"reserve", "mapregion", "identity"}
-  Budgets = {1, 40}
+  Budgets = {1, 12}
   Props = {"C07"}
 CONSTANT Top <- MCTop64
 CONSTANT SizesFor <- MCSizes64H
